@@ -889,6 +889,16 @@ pub fn stages(ctx: &Ctx) -> Vec<Stage> {
         let tol = rng.log10(-14.0, -12.5);
         dispatch(rep, &mut rng, i, n, scale, tol, "small-scale");
     }));
+    // huge data: values of 1e154 ... 1e156 (every quantity of the interpolation is representable, the square of a
+    // value is not)
+    st.push(Stage::new("huge-scale", tier.pick(4_000, 16_000), move |i, rep| {
+        let mut rng = Rng::for_case(seed, "c15-huge", i);
+        let n = 1 + rng.below(6);
+        let scale = rng.log10(154.3, 156.0);
+        let tol = rng.log10(-14.0, -6.0);
+        rep.count("huge_scale_cases", 1);
+        dispatch(rep, &mut rng, i, n, scale, tol, "huge-scale");
+    }));
     st.push(Stage::new("errors", tier.pick(600, 6_000), move |i, rep| {
         let mut rng = Rng::for_case(seed, "c15-err", i);
         if (i / 3) % 2 == 1 {
@@ -912,6 +922,7 @@ pub fn stages(ctx: &Ctx) -> Vec<Stage> {
 
 pub fn thresholds(ctx: &Ctx, rep: &Report) -> Vec<Threshold> {
     let mut t = vec![];
+    t.push(Threshold { what: "cases with data of size 1e154 ... 1e156".into(), required: ctx.tier.pick(4_000.0, 16_000.0), observed: rep.counter("huge_scale_cases") as f64 });
     for r in ["lagrange", "hermite"] {
         for f in ["f64", "complex"] {
             let name = format!("{}/{}", r, f);
